@@ -15,6 +15,9 @@ __all__ = ['CutoutImage']
 
 def _overlap_slices(large_array_shape, small_array_shape, position,
                     mode='partial'):
+    # astropy compares small_array_shape with a tuple, which fails for an
+    # array shape when an edge of the small array touches pixel 0
+    small_array_shape = tuple(int(size) for size in small_array_shape)
     slc_lg, slc_sm = overlap_slices(large_array_shape, small_array_shape,
                                     position, mode=mode)
 
